@@ -50,6 +50,11 @@ NODES = [("node%d.abcxyz.use1.cache.amazonaws.com" % i, "10.0.%d.%d" % (i // 4, 
 NODES += [("gateway.abcxyz.use1.cache.amazonaws.com", "10.0.9.9", 11311 + i) for i in range(3)]
 # node 11 shares only its IP with node 0 (another port), node 12 only its host name with node 1
 NODES += [("alias-of-0.abcxyz.use1.cache.amazonaws.com", NODES[0][1], 11999), (NODES[1][0], "10.0.7.77", 11998)]
+# nodes 13-18: other shapes a node's name and address may have - one label, a private DNS zone, a trailing dot, a 63-character label,
+# an IPv6 address (used with use_vpc), a long top-level domain with the highest port
+NODES += [("memcached-0", "10.0.8.1", 11211), ("cache-node-1.ec2.internal", "10.0.8.2", 11211), ("node.prod.example.internal.", "10.0.8.3", 11212),
+          ("a" * 63 + ".corp.example.com", "10.0.8.4", 11211), ("v6node.abcxyz.use1.cache.amazonaws.com", "fd00::1:17", 11211),
+          ("xn--cache-9qa.example.museum", "192.168.255.254", 65535)]
 HUGE = 1 << 30
 # servers of its own the application may put into rotation through the inherited add_server, in the spellings a server can have;
 # the next reconfigure_nodes() makes the rotation the advertised list again
@@ -283,6 +288,7 @@ def fixed_history_cases(tier, seed):
         [[3], [4], [5], [3]], [[0, 1, 2], [0, 1, 2]], [[7, 6], [6, 7, 0], [0]], [[0, 1, 2, 3], [0, 1, 2], [0, 1], [0]],
     ]
     hist += [[[8, 9, 10]], [[8, 9], [9, 10], [8]], [[0, 8, 9, 10], [10]], [[0, 11], [0, 11, 1, 12]], [[1, 12], [12]], [[11, 0, 12, 1, 8, 9]]]
+    hist += [[[13, 14, 15]], [[16, 17, 18], [18]], [[0, 13], [13, 14, 17], [17]], [[15], [15, 16]], [[13, 14, 15, 16, 17, 18], [0, 1], [14, 18, 2]]]
     for h in hist:
         for vpc in (True, False, 1, 0):
             for pooling in (False, True):
@@ -500,7 +506,7 @@ def check_two_users(case):
 
 
 def history_strategy(tier):
-    nodes = st.lists(st.one_of(st.integers(0, 7), st.integers(0, 12)), min_size=1, max_size=6, unique=True)
+    nodes = st.lists(st.one_of(st.integers(0, 7), st.integers(0, 12), st.integers(0, 18)), min_size=1, max_size=6, unique=True)
     sched = st.one_of(st.none(), st.lists(st.sampled_from([1, 2, 3, 5, 8, 13, 50, 4096]), min_size=1, max_size=4))
     fb = st.dictionaries(st.sampled_from(["1", "2", "3"]), st.lists(st.integers(0, 7), min_size=1, max_size=3, unique=True), max_size=2)
     return st.fixed_dictionaries({"steps": st.lists(nodes, min_size=1, max_size=6), "use_vpc": st.sampled_from([True, False, 1, 0]), "pooling": st.booleans(),
